@@ -1,42 +1,19 @@
-(* C16 proofs, part 6: what into_single_descriptors does when tuple lengths differ (with the
-   refutation of "error otherwise"), and find_derivation_index_for_spk as the inverse of
-   derivation. *)
+(* C16 proofs, part 6: the former mismatch witness, and find_derivation_index_for_spk as the
+   inverse of derivation. *)
 From Coq Require Import List Bool NArith Lia Arith.
 Import ListNotations.
 From Verif Require Import DescWrapModel DescWrapKeys DescWrapSplit.
 Local Open Scope N_scope.
 
-(* What the code does in general: the count comes from the first multipath key and keys
-   with MORE alternatives are silently truncated. *)
-Theorem split_truncates : forall d n,
-  first_multipath_len (desc_keys d) = Some n ->
-  (forall k, In k (desc_keys d) -> key_is_multipath k = true -> (n <= n_paths k)%nat) ->
-  into_single_descriptors d = KOk (map (fun i => select_desc i d) (seq 0 n)).
-Proof.
-  intros d n Hn Hall. unfold into_single_descriptors. rewrite Hn.
-  apply try_map_ok. intros i Hi. apply in_seq in Hi. unfold select_desc.
-  apply desc_try_map_ok. intros k Hk. apply index_choser_ok. intros M. specialize (Hall k Hk M). lia.
-Qed.
-
-(* FULL STATEMENT (DESIGN: "error otherwise"): whenever two multipath keys of a descriptor
-   have different numbers of alternatives, into_single_descriptors returns an error.
-   It is FALSE for the code as it is; witness  tr(X/<0;1;2>/star, pk(Y/<2;3>/star)) : the
-   leaf key is visited first (n = 2) and the third alternative of the internal key is
-   dropped without an error. *)
+(* The former counterexample to "error otherwise" (before /repo 4fc1acf3 the third
+   alternative of the internal key was dropped silently):  tr(X/<0;1;2>/star, pk(Y/<2;3>/star)).
+   With the repaired code it is the length-mismatch error. *)
 Definition s_ (i : N) := Step false i.
 Definition mismatch_leaf_key := KMulti None 1 [[s_ 2]; [s_ 3]] WUnhardened.
 Definition mismatch_internal_key := KMulti None 0 [[s_ 0]; [s_ 1]; [s_ 2]] WUnhardened.
 Definition mismatch_witness : desc dkey := DTr [(0, MsPk mismatch_leaf_key)] mismatch_internal_key.
-Theorem split_mismatch_refuted : exists d k1 k2 l,
-  In k1 (desc_keys d) /\ In k2 (desc_keys d) /\
-  key_is_multipath k1 = true /\ key_is_multipath k2 = true /\ n_paths k1 <> n_paths k2 /\
-  into_single_descriptors d = KOk l /\ length l = 2%nat.
-Proof.
-  exists mismatch_witness, mismatch_leaf_key, mismatch_internal_key.
-  eexists. split; [left; reflexivity|]. split; [right; left; reflexivity|].
-  split; [reflexivity|]. split; [reflexivity|]. split; [cbn; discriminate|].
-  split; [vm_compute; reflexivity | reflexivity].
-Qed.
+Lemma mismatch_witness_rejected : into_single_descriptors mismatch_witness = KErr ELenMismatch.
+Proof. vm_compute. reflexivity. Qed.
 
 (* ---- find_derivation_index_for_spk ---- *)
 Lemma bytes_eqb_eq : forall a b, bytes_eqb a b = true <-> a = b.
